@@ -123,6 +123,14 @@ struct Exec<'a> {
     violations: Vec<(String, String)>,
     stats: HashMap<&'static str, u64>,
     auto_seen: usize,
+    // ---- reference model of the connection event stream over the input/output order log ------
+    io_seen: usize,
+    /// connections whose established report was sent to the protocols and whose closed report was not
+    rep_open: HashMap<PeerId, Vec<Cid>>,
+    /// per (protocol, peer): the connection events the protocol still owes (true = established)
+    owed: HashMap<(usize, PeerId), std::collections::VecDeque<bool>>,
+    /// peers whose established report failed half-way (some protocols may have seen it): not modelled
+    unmodelled: std::collections::HashSet<PeerId>,
 }
 
 impl<'a> Exec<'a> {
@@ -174,6 +182,92 @@ impl<'a> Exec<'a> {
             violations: Vec::new(),
             stats: HashMap::new(),
             auto_seen: 0,
+            io_seen: 0,
+            rep_open: HashMap::new(),
+            owed: HashMap::new(),
+            unmodelled: Default::default(),
+        }
+    }
+
+    /// Reference model: a protocol owes `established` when the first connection report for a peer
+    /// is sent to it and `closed` when the report for the last one is sent; what it emits must be
+    /// exactly what it owes, in that order.  Decided on the order log, so that a connection that
+    /// closes while another one is being established in the same pump is judged by the order in
+    /// which the reports really went out and not by the state at the end of the pump.
+    fn check_io_model(&mut self) {
+        use crate::sworld::Io;
+        let log: Vec<Io> = {
+            let sh = self.world.shared.lock();
+            sh.io[self.io_seen..].to_vec()
+        };
+        self.io_seen += log.len();
+        let nsvc = self.sc.protos.len();
+        for e in log {
+            match e {
+                Io::RepEst { cid, peer } => {
+                    let open = self.rep_open.entry(peer).or_default();
+                    open.push(cid);
+                    if open.len() == 1 {
+                        for s in 0..nsvc {
+                            if self.world.services[s].1.is_some() {
+                                self.owed.entry((s, peer)).or_default().push_back(true);
+                            }
+                        }
+                    }
+                }
+                Io::RepEstFailed { peer, .. } => {
+                    self.unmodelled.insert(peer);
+                }
+                Io::RepClosed { cid, peer } => {
+                    let open = self.rep_open.entry(peer).or_default();
+                    let before = open.len();
+                    open.retain(|c| *c != cid);
+                    if before == 1 && open.is_empty() {
+                        for s in 0..nsvc {
+                            if self.world.services[s].1.is_some() {
+                                self.owed.entry((s, peer)).or_default().push_back(false);
+                            }
+                        }
+                    }
+                }
+                Io::SvcEst { svc, peer } | Io::SvcClosed { svc, peer } => {
+                    if self.unmodelled.contains(&peer) {
+                        continue;
+                    }
+                    let is_est = matches!(e, Io::SvcEst { .. });
+                    self.stat("model_checked_connection_events");
+                    let head = self.owed.entry((svc, peer)).or_default().pop_front();
+                    match (head, is_est) {
+                        (Some(true), true) | (Some(false), false) => {}
+                        (_, false) => {
+                            let d = format!("protocol {svc} peer {peer}: connections reported to it and not yet reported closed: {:?}", self.rep_open.get(&peer));
+                            self.viol("C08/closed-event-while-a-connection-is-open", d);
+                        }
+                        (_, true) => {
+                            let d = format!("protocol {svc} peer {peer}: no first connection report precedes it (open: {:?})", self.rep_open.get(&peer));
+                            self.viol("C08/established-event-without-a-new-first-connection", d);
+                        }
+                    }
+                }
+                Io::MgrEst { .. } | Io::MgrClosed { .. } => {}
+            }
+        }
+    }
+
+    /// At quiescence every protocol has emitted everything it owes.
+    fn check_io_model_quiescent(&mut self) {
+        self.check_io_model();
+        let owed: Vec<((usize, PeerId), bool)> =
+            self.owed.iter().filter_map(|(k, q)| q.front().map(|b| (*k, *b))).collect();
+        for ((svc, peer), est) in owed {
+            if self.unmodelled.contains(&peer) || self.world.services[svc].1.is_none() {
+                continue;
+            }
+            if est {
+                self.viol("C08/established-event-missing", format!("protocol {svc} was sent the first connection of {peer} and emitted nothing"));
+            } else {
+                self.viol("C08/manager-reported-closed-before-protocol", format!("protocol {svc} has not seen the close of {peer} although the report for its last connection was sent"));
+            }
         }
     }
 
@@ -492,19 +586,12 @@ impl<'a> Exec<'a> {
                     if was {
                         self.viol("C08/established-twice-without-close", format!("protocol {svc} peer {peer}"));
                     }
-                    if self.live_conns_of(&peer).is_empty() {
-                        self.viol("C08/established-event-for-peer-without-connection", format!("protocol {svc} peer {peer}"));
-                    }
                 }
                 SvcEv::Closed { peer } => {
                     self.stat("svc_closed_events");
                     let was = self.connected.insert((svc, peer), false).unwrap_or(false);
                     if !was {
                         self.viol("C08/closed-without-established", format!("protocol {svc} peer {peer}"));
-                    }
-                    if !self.live_conns_of(&peer).is_empty() {
-                        let d = format!("protocol {svc} peer {peer}: still open {:?}", self.live_conns_of(&peer));
-                        self.viol("C08/closed-event-while-a-connection-is-open", d);
                     }
                 }
                 SvcEv::DialFailure { peer, .. } => {
@@ -568,19 +655,15 @@ impl<'a> Exec<'a> {
             }
         }
         self.svc_seen = n;
-        // ---- manager events: when the manager reports the peer closed every protocol already knows
+        // ---- manager events: when the manager has reported the peer closed every protocol has
+        // emitted what it owes (the pump ran to quiescence)
         let m = self.world.mgr_events.len();
         for i in self.mgr_seen..m {
-            if let (_, MgrEvent::Closed { peer, .. }) = &self.world.mgr_events[i] {
-                let peer = *peer;
+            if let (_, MgrEvent::Closed { .. }) = &self.world.mgr_events[i] {
                 self.stat("mgr_closed_events");
-                for s in 0..self.sc.protos.len() {
-                    if self.world.services[s].1.is_some() && self.connected.get(&(s, peer)).copied().unwrap_or(false) {
-                        self.viol("C08/manager-reported-closed-before-protocol", format!("protocol {s} has not seen the close of {peer}"));
-                    }
-                }
             }
         }
+        self.check_io_model_quiescent();
         self.mgr_seen = m;
     }
 
